@@ -54,12 +54,13 @@ def plans(tier):
     P = []
     if tier == "quick":
         # the room with a side branch and a merge (creation prefix 3): every behaviour with at most two deviations
-        P += [(3, "10", 0, 2, "Limits0123", "FromAll", "SlicesQuick", 2, 1)]
+        P += [(3, "10", 0, 2, "Limits013", "FromAll", "SlicesQuick", 2, 1)]
         # event format v1 (room version 1) and domainless room IDs / privileged creators (12): one limit
         P += [(3, "1", 0, 2, "Limits2", "FromAll", "SlicesQuick", 2, 1),
-              (3, "12", 0, 2, "Limits3", "FromAll", "SlicesQuick", 2, 1)]
-        # every room with one more event on top of the first creation prefix (forks from event 5), single deviations
-        P += [(1, "10", 1, 2, "Limits2", "FromAll", "SlicesQuick", 1, 1)]
+              (3, "12", 0, 2, "Limits2", "FromAll", "SlicesQuick", 2, 1)]
+        # every room with one more event on top of the first creation prefix (forks from event 5): the protocol's
+        # single deviations in an undisturbed world
+        P += [(1, "12", 1, 2, "Limits3", "FromAll", "SlicesQuick", 1, 0)]
         return P
     for ver in VERSIONS:
         P += [(3, ver, 0, 2, "Limits0123", "FromAll", "SlicesAll", 2, 1)]
@@ -178,13 +179,39 @@ def run(ctx):
     jobs = [(p, _plan_cfg(ctx, n, p)) for n, p in enumerate(ps)]
     par = 4 if tier == "quick" else 3
     per = max(2, ctx.workers // par)
+    faults = FAULTS if tier == "thorough" else [FAULTS[(ctx.seed + k * 3) % len(FAULTS)] for k in range(2)]
 
     def one(job):
         p, cfg = job
         return ctx.tlc("Backfill_gen", cfg, workers=per, timeout=1500, heap="6g")
 
+    def asbuilt():
+        # the as-built acceptance rule against ReturnedSafe (a verdict about the DESIGN; the replay is what speaks about the code)
+        return ctx.tlc("Backfill_gen", "Backfill_asbuilt.cfg", workers=2, timeout=600, allow_violation=True, expect_records=False, heap="4g")
+
+    def fault(fi):
+        # the invariants must catch planted defects of the model requester (spec-side mutation: the properties are not vacuous)
+        f, inv = fi
+        cfg = _cfg(ctx, "Backfill_fault.cfg", "Backfill_fault_%s.cfg" % f, {"Fault": '"%s"' % f}, invariants="TypeOK " + inv)
+        fr = ctx.tlc("Backfill_gen", cfg, workers=2, timeout=600, allow_violation=True, expect_records=False, heap="4g")
+        if fr.violated != inv:
+            raise MachineryError("Backfill.tla with the planted requester defect %s: expected a violation of %s, TLC reports %s"
+                                 % (f, inv, fr.violated))
+        return "%s->%s" % fi
+
     with ThreadPoolExecutor(max_workers=par) as ex:
-        results = list(ex.map(one, jobs))
+        futs = [ex.submit(one, j) for j in jobs]
+        fab = ex.submit(asbuilt)
+        ffs = [ex.submit(fault, fi) for fi in faults]
+        results = [f.result() for f in futs]
+        ab = fab.result()
+        ctx.notes["planted_model_faults_caught"] = [f.result() for f in ffs]
+    ctx.notes["asbuilt"] = (
+        "TLC refutes %s for SigTolerance=first (an event that fails the signature check is never put through the auth "
+        "checks: with a destroyed signature an event the auth rules reject is passed on)" % ab.violated
+        if ab.violated else "SigTolerance=first satisfies ReturnedSafe within Backfill_asbuilt.cfg")
+    if ab.violated not in (None, "ReturnedSafe"):
+        raise MachineryError("Backfill_asbuilt.cfg: expected ReturnedSafe to be refuted (or to hold), TLC reports %s" % ab.violated)
     import json
     seen, recs = set(), []
     for r in results:
@@ -201,31 +228,6 @@ def run(ctx):
         raise MachineryError("Backfill.tla: within the bounds of the %s tier no behaviour shows %s (dead action / disjunct)" % (tier, dead))
     ctx.log("Backfill: %d distinct behaviours from %d plans; record-derived coverage complete (%d features)" % (len(recs), len(ps), len(cov)))
     ctx.replay_and_compare("x04", recs, pkg=PKG)
-
-    # the as-built acceptance rule against ReturnedSafe (a verdict about the DESIGN; the replay above is what speaks
-    # about the code)
-    ab = ctx.tlc("Backfill_gen", "Backfill_asbuilt.cfg", workers=4, timeout=600, allow_violation=True, expect_records=False, heap="4g")
-    ctx.notes["asbuilt"] = (
-        "TLC refutes %s for SigTolerance=first (an event that fails the signature check is never put through the auth "
-        "checks: with a destroyed signature an event the auth rules reject is passed on)" % ab.violated
-        if ab.violated else "SigTolerance=first satisfies ReturnedSafe within Backfill_asbuilt.cfg")
-    if ab.violated not in (None, "ReturnedSafe"):
-        raise MachineryError("Backfill_asbuilt.cfg: expected ReturnedSafe to be refuted (or to hold), TLC reports %s" % ab.violated)
-
-    # the invariants must catch planted defects of the model requester (spec-side mutation: the properties are not vacuous)
-    faults = FAULTS if tier == "thorough" else [FAULTS[(ctx.seed + k * 3) % len(FAULTS)] for k in range(2)]
-
-    def fault(fi):
-        f, inv = fi
-        cfg = _cfg(ctx, "Backfill_fault.cfg", "Backfill_fault_%s.cfg" % f, {"Fault": '"%s"' % f}, invariants="TypeOK " + inv)
-        fr = ctx.tlc("Backfill_gen", cfg, workers=3, timeout=600, allow_violation=True, expect_records=False, heap="4g")
-        if fr.violated != inv:
-            raise MachineryError("Backfill.tla with the planted requester defect %s: expected a violation of %s, TLC reports %s"
-                                 % (f, inv, fr.violated))
-        return "%s->%s" % fi
-
-    with ThreadPoolExecutor(max_workers=3) as ex:
-        ctx.notes["planted_model_faults_caught"] = list(ex.map(fault, faults))
 
     ctx.exhaustive = True
     ctx.notes["rule"] = (
